@@ -476,7 +476,11 @@ func (a *aggregator) add(rec *record) {
 	if rec.Cut > 0 {
 		cutflag = 1
 	}
-	key := fmt.Sprintf("%s/%s/%d", outer, rec.SC, cutflag)
+	empty := 0
+	if rec.Len == 0 {
+		empty = 1
+	}
+	key := fmt.Sprintf("%s/%s/%d/%d", outer, rec.SC, cutflag, empty)
 	s := a.cur[key]
 	if s == nil {
 		s = &summary{K: rec.K, P: rec.P, Sw: sw, SC: rec.SC, Cut: rec.Cut, Len: rec.Len, EPs: k.EPs, I: rec.I, Seed: rec.Seed,
@@ -695,6 +699,12 @@ func tail(s string) string {
 
 // fatalClass extracts the first line of a Go runtime fatal error / unrecovered panic.
 func fatalClass(stderr string) string {
+	if strings.Contains(stderr, "out of memory") || strings.Contains(stderr, "cannot allocate memory") {
+		return "out of memory"
+	}
+	if strings.Contains(stderr, "stack overflow") || strings.Contains(stderr, "stack exceeds") {
+		return "stack overflow"
+	}
 	for _, l := range strings.Split(stderr, "\n") {
 		l = strings.TrimSpace(l)
 		if strings.HasPrefix(l, "fatal error:") || strings.HasPrefix(l, "runtime:") || strings.HasPrefix(l, "panic:") {
